@@ -11,6 +11,7 @@ BASE = dict(
     MaxSid=2, MaxU=2, MaxPid=2, MaxEid=2, MaxTid=1, MaxAid=1, MaxQ=2,
     Names=["a"], DataVals=[1], PxVals=[2], ActNames=["x"], AtsVals=[1], AssetNames=["m"], Lens=[1],
     Opens=False, Recvs=False, FlagVals=[0], EntPx=[1], JoinSids=[0, 1, 2, 99], ToLists="ToListsNone", GenDepth=0,
+    TickW=2, ProcW=3,
 )
 
 # exhaustive families: name -> overrides (quick) ; "thorough" overrides applied on top
@@ -68,7 +69,18 @@ GEN = dict(
     Names=["a", "b"], DataVals=[1, 2], PxVals=[1, 2, 3], ActNames=["x", "y"], AtsVals=[0, 1, 2, 5],
     AssetNames=["m", "n"], Lens=[0, 1, 10239, 10240, 10241, 20000], Opens=True, Recvs=True,
     FlagVals=[0, 1], EntPx=[0, 1], JoinSids=[0, 1, 2, 3, 99], ToLists="ToListsFull", GenDepth=40,
+    TickW=2, ProcW=3,
 )
+
+# focused generation: the request kinds a property is about (the other half of the histories uses every kind)
+FOCUS = {
+    "core": dict(Kinds=["Join", "EntityAdd", "EntityDelete", "Pose", "Custom", "Action", "AssetAdd"], TickW=3, ProcW=4),
+    "pose": dict(Kinds=["Join", "EntityAdd", "EntityDelete", "Pose"], TickW=4, ProcW=6, JoinSids=[0, 1, 1, 2], MaxEid=3),
+    "comps": dict(Kinds=["Join", "EntityAdd", "EntityDelete", "TypeAdd", "GetName", "GetId", "CompAdd", "CompDelete", "CompUpdate",
+                         "CompList", "Sub", "Unsub"], TickW=3, ProcW=4, JoinSids=[0, 1, 1, 2]),
+    "mods": dict(Kinds=["Join", "EntityAdd", "EntityDelete", "Action", "AssetAdd"], JoinSids=[0, 1, 1, 2]),
+    "custom": dict(Kinds=["Join", "Custom", "EntityAdd"], JoinSids=[0, 1, 1, 2]),
+}
 
 
 def gen_cfg(depth, **over):
